@@ -131,6 +131,14 @@ def r06(ctx):
         for fa, where in sorted(foreign.items()):
             ok = fa in FOREIGN_LEAVES_OK
             r.ob("derive:leaf:%s" % fa, ok, "", "foreign leaf type %s used by %s%s" % (fa, ["%s.%s" % (x.rsplit("::", 1)[1], y) for x, y in where[:3]], "" if ok else " is not in the reviewed table of round-tripping leaf types"))
+        # a field routed through a hand-written function (`serialize_with`, `deserialize_with`, `with`) is not written and
+        # read from one derived definition any more: its two directions have to be reviewed together
+        custom = sorted(k for k in F.adts if ("__SerializeWith" in k or "__DeserializeWith" in k) and any((" for %s>" % a) in k for a in closure))
+        for k in custom:
+            owner = [a for a in closure if (" for %s>" % a) in k][0]
+            r.ob("derive:custom-field-codec:%s:%s" % (owner.rsplit("::", 1)[1], "write" if "__SerializeWith" in k else "read"), False, "",
+                 "a field of %s is %s through a hand-written function while the other direction is derived: what is written need not be what is read back (precision, format, defaults)" % (owner.rsplit("::", 1)[1], "written" if "__SerializeWith" in k else "read"))
+        r.ob("derive:no-custom-field-codec", not custom, "", "no wire field goes through a hand-written (de)serialiser")
         r.ob("derive:closure-size", len(closure) >= 14, "", "%d local ADTs in the wire closure of Action and Request: %s" % (len(closure), sorted(x.rsplit("::", 1)[1] for x in closure)))
     ctx.run_rule("R06.1", "every wire type derives both directions; leaf types reviewed", body1, floor=30)
 
